@@ -98,6 +98,7 @@ def main(argv):
         got = sorted((r["range"]["byteOffset"]["start"], r["range"]["byteOffset"]["end"]) for r in map(json.loads, filter(None, out.decode().splitlines())))
         return 0 if got == sorted(tuple(x) for x in case["library"]) else 1
     grid = [(p, sel, s) for (p, sel) in PATTERNS for s in STRICT]
+    stdin_names = [n for n in names if files[n].count("\n") == 1]
     stats = {"cli_runs": 0, "pairs": 0, "pairs_with_match": 0, "pairs_match_without_literal": 0}
 
     def work(item):
@@ -108,14 +109,20 @@ def main(argv):
         rule = json.dumps({"id": "r", "language": "javascript", "rule": {"pattern": pat}})
         lib = lib_findings_local(rule)
         if lib is None:
-            return item, None, None, None
+            return item, None, None, None, []
         argv_run = ["run", "-p", p, "-l", "js", "--strictness", s, "--json=stream"] + (["--selector", sel] if sel else [])
         code, out, err = vlib.run_cli(binary, argv_run + ["."], proj, timeout=120)
         run_res = (code, out, err)
         rfile = os.path.join(root, f"rule_{abs(hash((p, sel, s)))}.yml")
         open(rfile, "w").write(rule)
         code2, out2, err2 = vlib.run_cli(binary, ["scan", "-r", rfile, "--json=stream", "."], proj, timeout=120)
-        return item, lib, run_res, (code2, out2, err2)
+        # the same search with the text on standard input (no file walk, no prefilter): every
+        # single-statement source
+        stdin_res = []
+        for n in stdin_names:
+            c3, o3, e3 = vlib.run_cli(binary, argv_run + ["--stdin"], proj, stdin=files[n].encode(), timeout=60)
+            stdin_res.append((n, c3, o3, e3))
+        return item, lib, run_res, (code2, out2, err2), stdin_res
 
     # library results are computed per rule in its own helper run (thread-safe: distinct files)
     def lib_findings_local(rule):
@@ -128,10 +135,25 @@ def main(argv):
 
     results = vlib.pmap(work, grid, workers=16)
     samples = []
-    for (p, sel, s), lib, run_res, scan_res in results:
+    for (p, sel, s), lib, run_res, scan_res, stdin_res in results:
         if lib is None:
             continue  # the pattern is not accepted with this selector/strictness: nothing to compare
         want = {n: lib[i] for i, n in enumerate(names)}
+        for n, c3, o3, e3 in stdin_res:
+            stats["cli_runs"] += 1
+            stats["pairs"] += 1
+            crash = vlib.is_crash(c3, e3)
+            if crash:
+                rep.violation(f"cli:run-stdin:crash:{crash}", {"pattern": p, "selector": sel, "strictness": s, "text": files[n], "stderr": e3.decode(errors="replace")[-300:]})
+                continue
+            try:
+                g3 = sorted((r["range"]["byteOffset"]["start"], r["range"]["byteOffset"]["end"]) for r in map(json.loads, filter(None, o3.decode().splitlines())))
+            except (ValueError, KeyError) as e:
+                rep.violation("cli:run-stdin:unparseable-output", {"pattern": p, "strictness": s, "text": files[n], "error": str(e)})
+                continue
+            if g3 != want[n]:
+                rep.violation(f"cli.run-stdin!=library:strictness={s}{':selector' if sel else ''}", {"pattern": p, "selector": sel, "strictness": s, "text": files[n], "library": want[n], "cli": g3,
+                              "argv": ["run", "-p", p, "-l", "js", "--strictness", s, "--json=stream"] + (["--selector", sel] if sel else []) + ["--stdin"]})
         for front, res, argv_ in (("run", run_res, ["run", "-p", p, "-l", "js", "--strictness", s, "--json=stream"] + (["--selector", sel] if sel else [])), ("scan", scan_res, None)):
             code, out, err = res
             stats["cli_runs"] += 1
@@ -169,7 +191,7 @@ def main(argv):
     coverage = {
         "evaluations": stats["pairs"],
         "distinct_nontrivial": stats["pairs_match_without_literal"],
-        "rule": "CLI layer: every (pattern, strictness[, selector]) of a 12-pattern list x 5 strictness levels, run with `ast-grep run -p` and `ast-grep scan -r` over a directory holding every source of <= 2 statements from an 18-statement alphabet (thorough: plus all triples over 8); one evaluation = one (front end, pattern, strictness, file) comparison of the reported match ranges with the library's find_all on the same bytes; distinct_nontrivial = (front end, pattern, strictness, file) pairs where the library finds a match although the pattern's longest literal does not occur in the file (the case the substring prefilter can get wrong)",
+        "rule": "CLI layer: every (pattern, strictness[, selector]) of a 12-pattern list x 5 strictness levels, run with `ast-grep run -p` and `ast-grep scan -r` (and `run -p --stdin` on every single-statement source) over a directory holding every source of <= 2 statements from an 18-statement alphabet (thorough: plus all triples over 8); one evaluation = one (front end, pattern, strictness, file) comparison of the reported match ranges with the library's find_all on the same bytes; distinct_nontrivial = (front end, pattern, strictness, file) pairs where the library finds a match although the pattern's longest literal does not occur in the file (the case the substring prefilter can get wrong)",
         "samples": samples,
         "exhaustive": True,
         "cli_runs": stats["cli_runs"], "files": len(names), "pairs_with_match": stats["pairs_with_match"],
